@@ -17,6 +17,7 @@
 
 #include "world.hpp"
 #include <set>
+#include <cstdlib>
 #include "weightkernel.hpp"
 
 namespace tbfsim {
@@ -173,6 +174,8 @@ public:
 
     void buildTree() override {
         g_ctx->sim.clearNames();
+        // block size -1 = the library's automatic estimate (TbfBlockSizeFinder): let it run without the TBFMM_BLOCK_SIZE override
+        struct EnvGuard { bool on; explicit EnvGuard(bool o) : on(o) { if (on) unsetenv("TBFMM_BLOCK_SIZE"); } ~EnvGuard() { if (on) setenv("TBFMM_BLOCK_SIZE", "4", 1); } } envGuard(sc.blockSize == -1);
         if constexpr (Tsm) tree.reset(new Tree(*conf, particles(0), particles(1), sc.blockSize, sc.oneGroupPerParent));
         else tree.reset(new Tree(*conf, particles(0), sc.blockSize, sc.oneGroupPerParent));
         refreshView();
